@@ -58,6 +58,11 @@ def gen_tests(tier):
         svs = list(SOLVERS) if tier != "quick" else [list(SOLVERS)[(len(out)) % 3]]
         for sv in svs:
             out.append((sv, {"sig": sig2, "shape": "nested", "guards": [g1, g2], "fails": ["panic1"]}))
+    for g1, g2 in testgen.DIV0_PAIRS:
+        for sv in SOLVERS:
+            out.append((sv, {"sig": sig2, "shape": "nested", "guards": [g1, g2], "fails": ["panic1"]}))
+            # a division by zero that is NOT zero can never hold: any counterexample is bogus
+            out.append((sv, {"sig": sig2, "shape": "nested", "guards": ["y==0", g2.replace("==0", "==s")], "fails": ["panic1"]}))
     for sig in ("bytes", "uint256[]", "uint256,bytes", "uint256,uint256[]"):
         G = [g for g in testgen.guards_for(sig) if "keccak" not in g]
         dyn = [g for g in G if g.startswith(("len", "b:", "a:"))]
